@@ -38,6 +38,11 @@ func (m *Miner) VerifTimeToMineCh() <-chan *MineInfo {
 	return m.timeToMineCh
 }
 
+// VerifStopCh is the channel on which Stop tells runMineLoop to return (Stop blocks until it is received).
+func (m *Miner) VerifStopCh() <-chan struct{} {
+	return m.stopCh
+}
+
 // VerifEndOfMineWindow reads the only field of MineInfo.
 func (mi *MineInfo) VerifEndOfMineWindow() int64 {
 	return mi.endOfMineWindow
